@@ -78,6 +78,7 @@ pub struct WorkerArgs {
 pub fn worker_main(args: WorkerArgs) {
     limit_address_space(4 << 30);
     crate::run::install_panic_hook();
+    crate::case::HEARTBEAT.store(true, std::sync::atomic::Ordering::Relaxed);
     let mut scratch = Scratch::new();
     let stdout = std::io::stdout();
     let mut index = args.offset;
